@@ -15,7 +15,7 @@ from ..oracle.hyper import hyp, project_exact
 LEVEL = "exploration"
 NEEDS = ["harness", "cli"]
 RULE = ("(a) pmf grid: hypergeometric_pmf(N,K,n,k) for ALL 0<=K<=N, 0<=n<=N, 0<=k<=n with N<=Nmax (quick 26, thorough 48); "
-        "(b) large one-axis sizes N in {50,169..172,340,341,500,1000,1029,1030,1500,2000,3000,4000}: seeded (K,n,k) samples always including "
+        "(b) every N from Nmax+1 to 168 with seeded queries centred on n~N/2, k~mode, and large one-axis sizes N in {50,169..172,340,341,500,1000,1029,1030,1500,2000,3000,4000}: seeded (K,n,k) samples always including "
         "n in {1,N/2,N-1,N}, K in {0,1,N/2,N} and the mode k; (c) operator wiring: every unit vector of every shape in a grid (1-3 axes) "
         "projected to every admissible target; (d) random signed/real spectra (1-4 axes) vs exact rational projection, and the laws mass, "
         "non-negativity, identity (exact), two-step == direct, commutes with marginalization; (e) inadmissible targets -> the stated error; "
@@ -338,6 +338,18 @@ def shard(S, p):
     for N in LARGE:
         if (N + i) % 2 == 0 or True:
             check_pmf(S, p, large_queries(rng, N, p["per_large"]), "pmf_large")
+    # (b2) every N between the grid and the large sizes: sampled queries centred on n ~ N/2, k ~ mode (where binomials are largest)
+    qs = []
+    for N in range(p["nmax"] + 1, 169):
+        if (N + i) % 4:
+            continue
+        for _ in range(p["per_large"]):
+            n = min(N, max(0, N // 2 + rng.randint(-3, 3))) if rng.random() < 0.5 else rng.randint(0, N)
+            K = min(N, max(0, N // 2 + rng.randint(-3, 3))) if rng.random() < 0.5 else rng.randint(0, N)
+            lo, hi = max(0, n - (N - K)), min(n, K)
+            mode = min(hi, max(lo, ((n + 1) * (K + 1)) // (N + 2)))
+            qs.append([N, K, n, rng.choice([mode, rng.randint(lo, hi), min(hi, mode + 1)])])
+    check_pmf(S, p, qs, "pmf_medium")
     check_units(S, p)
     check_random(S, p)
     check_errors(S, p)
